@@ -22,9 +22,20 @@ package analysis
 //@ assume func utf8.RuneCount(p)
 //@   pure
 //@   ensures 0 <= result && result <= len(p)
-// bytes.Runes decodes every rune (invalid bytes become U+FFFD, a valid rune)
+// DecodeRune consumes between 1 and 4 bytes of a non-empty input, never more than there are; an
+// empty input yields (RuneError, 0). decSize names the width it reports.
+//@ uf decSize(p []byte) int
+//@ assume func utf8.DecodeRune(p)
+//@   pure
+//@   ensures result1 == decSize(p) && result1 >= 0 && result1 <= len(p) && implies(len(p) == 0, result0 == utf8.RuneError && result1 == 0) && implies(len(p) > 0, result1 >= 1 && result1 <= 4)
+// bytes.Runes (and the conversion []rune(string(s))) decodes s rune by rune: invalid bytes become
+// U+FFFD, a valid rune, and occupy ONE byte. runeOff(s, k) is the byte offset of the k-th rune.
+//@ uf runeOff(s []byte, k int) int
 //@ assume func bytes.Runes(s)
 //@   ensures fresh(result) && len(result) == utf8.RuneCount(s) && forall(k, 0, len(result), runeValid(result[k]))
+//@   ensures runeOff(s, 0) == 0 && runeOff(s, len(result)) == len(s) && forall(k, 0, len(result)+1, 0 <= runeOff(s, k) && runeOff(s, k) <= len(s))
+//@   ensures forall(k, 0, len(result), runeOff(s, k+1) - runeOff(s, k) >= 1 && runeOff(s, k+1) - runeOff(s, k) <= 4 && decSize(s[runeOff(s, k):]) == runeOff(s, k+1) - runeOff(s, k) && \
+//@             (utf8.RuneLen(result[k]) == runeOff(s, k+1) - runeOff(s, k) || (result[k] == utf8.RuneError && runeOff(s, k+1) - runeOff(s, k) == 1)))
 
 //@ func DeleteRune
 //@   props C19
